@@ -217,6 +217,12 @@ def r1_layout(ck, P):
         for t, s_ in sf.guard_edges(x.bb.id):
             if not t.a:
                 continue
+            if t.op == 'switch':
+                if sf.strip_casts(t.a[0])[0] == 'a' and t.d.get('default') != s_:
+                    cvs = [int(cv) for cv, bb in t.d.get('cases', []) if bb == s_]
+                    if cvs and SEPK not in cvs:
+                        return True
+                continue
             c, p, ops = sf.cond(t.a[0])
             if c is None or c.op != 'icmp' or p not in ('eq', 'ne'):
                 continue
@@ -939,10 +945,14 @@ def r12_param_block_validated(ck, P, rid='C18-R12'):
             for t, s in f.guard_edges(x.bb.id):
                 if not t.a:
                     continue
+                if t.op == 'switch':
+                    if list(f.strip_casts(t.a[0])) == ['a', fpar] and any(int(cv) == K and bb == s for cv, bb in t.d.get('cases', [])) and t.d.get('default') != s:
+                        ok = True
+                    continue
                 c, p, ops = f.cond(t.a[0])
                 if c is None or c.op != 'icmp' or p not in ('eq', 'ne'):
                     continue
-                if not any(list(o) == ['a', fpar] for o in ops) or not any(o[0] == 'c' and int(o[1]) == K for o in ops):
+                if not any(list(f.strip_casts(o)) == ['a', fpar] for o in ops) or not any(o[0] == 'c' and int(o[1]) == K for o in ops):
                     continue
                 if (p == 'eq') == (t.d['succ'][0] == s):
                     ok = True
